@@ -280,7 +280,23 @@ func vh_C05_pkce() {
 		verifAssert("C05.pkce.verifier-length", len(v) >= 43 && len(v) <= 128)
 		if method == "S256" {
 			verifAssert("C05.pkce.verifier-not-sent-in-clear", l.challenge != v)
+			// nothing the browser saw at start reveals the verifier (challenge, state, nonce, CSRF cookie)
+			for _, seen := range []string{l.challenge, l.state, l.nonceHash, l.cookie.Value, l.cookie.Name} {
+				verifOpaque("C05.pkce.verifier-opaque-to-browser", seen, v)
+			}
+		} else {
+			for _, seen := range []string{l.state, l.nonceHash, l.cookie.Value, l.cookie.Name} {
+				verifOpaque("C05.pkce.verifier-opaque-outside-challenge", seen, v)
+			}
 		}
+	}
+	if f.store.saveCalls > 0 && f.store.saved != nil {
+		// the raw OIDC nonce (restored into the session from the CSRF cookie) was never shown to the browser
+		raw := string(f.store.saved.Nonce)
+		for _, seen := range []string{l.challenge, l.state, l.nonceHash, l.cookie.Value, l.cookie.Name} {
+			verifOpaque("C05.nonce.raw-nonce-opaque-to-browser", seen, raw)
+		}
+		verifReach("nonce-checked")
 	}
 	verifAssert("C05.pkce.redeem-reached", f.prov.redeemCalls == 1)
 }
